@@ -402,6 +402,11 @@ def g_ood_value(rng, c):
     return c["lo"] - rng.randint(1, 3) if rng.random() < 0.5 else c["hi"] + rng.randint(1, 3)
   if c["t"] == "cat":
     return rng.choice([x for x in range(-2, 19) if x not in c["es"]])
+  if c["t"] == "grid" and rng.random() < 0.4:   # off the grid by a hair (1e-9 .. 2^-40 relative): still not an element
+    e = rng.choice(c["es"])
+    v = e + rng.choice([2.0 ** -30, -(2.0 ** -30), 1e-9]) if abs(e) < 1 else e * (1 + rng.choice([2.0 ** -40, -(2.0 ** -40), 1e-9]))
+    if v not in c["es"]:
+      return v
   if c["t"] == "grid":
     return rng.choice([min(c["es"]) - 1.0, max(c["es"]) + 0.5, (min(c["es"]) + max(c["es"])) / 2 + 0.0625 + max(c["es"]) - min(c["es"])])
   return c["hi"] + 1.0
